@@ -166,6 +166,11 @@ impl RequestHandler<Rename> for RenameHandler {
                     let changes = def
                         .definition_and_usages()
                         .into_iter()
+                        .filter(|dl| {
+                            // A usage that reaches the symbol via 'super' does not mention the symbol's name
+                            let sl = codegen.analysis().look_up(dl.span);
+                            !Identifier::from(sl.file.source_slice(dl.span)).is_super()
+                        })
                         .map(|dl| {
                             let loc = to_location(codegen.analysis().look_up(dl.span));
 
